@@ -26,8 +26,9 @@ def parse_cases(printed, grammar):
 
 
 def finding_key(x):
-    """(class, innermost paramiko frame); an exception raised in the caller's own thread (not handed over by the
-    transport thread) also names the parse site, because the decoder frame alone would not tell the paths apart"""
+    """(class, innermost paramiko frame); an exception that did not propagate through Transport.run() - raised by an
+    API call in the caller's own thread, or caught inside a handler and stored raw - also names the parse site, because
+    the decoder frame alone would not tell such paths apart"""
     if x.get("via_run", True):
         return "%s@%s" % (x["cls"], x["site"])
     return "%s@%s<-%s" % (x["cls"], x["site"], x.get("parser", "-"))
@@ -97,7 +98,7 @@ def run(c):
     jobs = plan(cases, c, rnd)
     nworkers = 8
     # quick: a fixed driving budget after the emission run (the tier has 60 s for three JVM starts and the driving)
-    deadline = (time.time() + 12.0) if c.quick else (t_start + 10.5 * 60)
+    deadline = (time.time() + 8.0) if c.quick else (t_start + 10.5 * 60)
     ncore = sum(1 for j in jobs if j[2])
     if ncore < 150:
         raise Machinery("the fixed stratum has only %d cases" % ncore)
